@@ -47,6 +47,10 @@ type Sys struct {
 	Tokens [][]byte // tokens handed out so far (canonicalisation + unlock/lease arguments)
 	LastTok map[string][]byte
 	LastRes simcluster.Res
+	// Untracked keys: an operation whose effect the statements do not fix was applied (Incr on a
+	// value that is not a number). Nothing is expected of them until a plain Put, GetPut or Delete
+	// defines their state again; white-box oracles still apply.
+	Untracked map[string]bool
 }
 
 func nowMS() int64 { return sched.PeekNS() / 1e6 }
@@ -59,7 +63,7 @@ func New(p *Params) *Sys {
 		panic(err)
 	}
 	// leave the sub-millisecond region of instant 0 behind so that "now" is always k ms + a little
-	return &Sys{P: p, Cl: cl, KV: kv, Ref: map[string]*RefEntry{}, LastTok: map[string][]byte{}}
+	return &Sys{P: p, Cl: cl, KV: kv, Ref: map[string]*RefEntry{}, LastTok: map[string][]byte{}, Untracked: map[string]bool{}}
 }
 
 func (s *Sys) live(key string) *RefEntry {
@@ -136,6 +140,9 @@ func (s *Sys) Apply(e Ev) []Fail {
 		key = p.Keys[e.A]
 	}
 	vis := p.Visible
+	if s.Untracked[key] && e.K != "tick" && e.K != "evict" && e.K != "janitor" && e.K != "compact" {
+		return s.applyUntracked(e, key)
+	}
 	switch e.K {
 	case "tick":
 		sched.AdvanceNS(int64(e.B) * 1e6)
@@ -279,6 +286,14 @@ func (s *Sys) Apply(e Ev) []Fail {
 			d = -d
 		}
 		s.LastRes = r
+		if l != nil {
+			if _, err := strconv.ParseInt(string(l.Val), 10, 64); err != nil {
+				// current value is not a number (e.g. a lock token): outcome not fixed by any statement
+				s.Untracked[key] = true
+				delete(s.Ref, key)
+				break
+			}
+		}
 		if expect(&fs, e.K, r, "") {
 			if vis && r.N != base+d {
 				fs = append(fs, Fail{"result/" + e.K + "/value", fmt.Sprintf("%s returned %d, the specification says %d (base %d)", e.K, r.N, base+d, base)})
@@ -290,8 +305,18 @@ func (s *Sys) Apply(e Ev) []Fail {
 			s.Ref[key] = ne
 		}
 	case "incrf":
+		l := s.live(key)
 		r := s.KV.IncrByFloat(key, 0.5)
 		s.LastRes = r
+		if l != nil {
+			if _, err := strconv.ParseFloat(string(l.Val), 64); err != nil {
+				// not a number (a lock token): the call must fail and change nothing
+				if r.Err == "" {
+					fs = append(fs, Fail{"result/incrbyfloat/non-numeric-accepted", "IncrByFloat succeeded on a value that is not a number"})
+				}
+				break
+			}
+		}
 		if expect(&fs, "IncrByFloat", r, "") {
 			s.Ref[key] = &RefEntry{Val: []byte(strconv.FormatFloat(r.F, 'f', -1, 64)), ExpUnknown: true}
 		}
@@ -350,6 +375,51 @@ func (s *Sys) Apply(e Ev) []Fail {
 	return fs
 }
 
+// applyUntracked runs an operation on a key whose state is outside the model: no expectations.
+func (s *Sys) applyUntracked(e Ev, key string) []Fail {
+	switch e.K {
+	case "put":
+		if e.S == "" {
+			s.Untracked[key] = false
+			return s.Apply(e)
+		}
+		var o simcluster.PutOpt
+		o.NX = strings.Contains(e.S, "NX")
+		o.XX = strings.Contains(e.S, "XX")
+		if strings.Contains(e.S, "PX") {
+			o.PX = durPX
+		} else if strings.Contains(e.S, "EX") {
+			o.EX = durEX
+		}
+		s.KV.Put(key, []byte(putValues[e.S]), o)
+	case "get":
+		s.KV.Get(key)
+	case "del", "getput":
+		s.Untracked[key] = false
+		delete(s.Ref, key)
+		return s.Apply(e)
+	case "expire":
+		s.KV.Expire(key, durExpire)
+	case "incr":
+		s.KV.Incr(key, e.B)
+	case "decr":
+		s.KV.Decr(key, e.B)
+	case "incrf":
+		s.KV.IncrByFloat(key, 0.5)
+	case "lock":
+		r := s.KV.Lock(key, 0, 0)
+		if r.Err == "" {
+			s.Tokens = append(s.Tokens, r.Token)
+			s.LastTok[key] = r.Token
+		}
+	case "unlock":
+		s.KV.Unlock(key, s.LastTok[key])
+	case "lease":
+		s.KV.Lease(key, s.LastTok[key], durLease)
+	}
+	return nil
+}
+
 func (s *Sys) tokName(v []byte) string {
 	for i, t := range s.Tokens {
 		if bytes.Equal(t, v) {
@@ -364,6 +434,9 @@ func (s *Sys) Canon() string {
 	var b strings.Builder
 	now := nowMS()
 	for _, k := range s.P.Keys {
+		if s.Untracked[k] {
+			b.WriteString("U[" + k + "]")
+		}
 		if e := s.Ref[k]; e != nil {
 			rel := int64(0)
 			if e.Exp != 0 {
@@ -453,6 +526,9 @@ func (s *Sys) CheckMirror() []Fail {
 func (s *Sys) CheckVisible() []Fail {
 	var fs []Fail
 	for _, k := range s.P.Keys {
+		if s.Untracked[k] {
+			continue
+		}
 		l := s.live(k)
 		for _, m := range s.Cl.Live() {
 			dm, err := m.Emb.NewDMap(s.P.DMap)
